@@ -46,6 +46,12 @@ def run(env, tier, seed, broken=None):
         '%s caller() { %s secret = 1; %s callee(); }\n%s callee() { %s secret; }\n%s caller();\n' % (FUN, VAR, RETURN, FUN, RETURN, PRINT),
         '%s f(d) { %s (d > 0) { %s f(d - 1); } %s "bottom"; }\n%s f(200);\n' % (FUN, IF, RETURN, RETURN, PRINT),
     ]
+    extra += [
+        '%s ticks = 0;\n%s tick() { ticks = ticks + 1; %s "tick"; %s ticks; }\n%s find(a) { %s (%s i = 0; i < 5; i = i + tick()) { %s (i == a) { %s i * 10; } } %s -1; }\n%s find(1);\n%s ticks;\n%s find(0);\n%s ticks;\n' % (VAR, FUN, PRINT, RETURN, FUN, FOR, VAR, IF, RETURN, RETURN, PRINT, PRINT, PRINT, PRINT),
+        '%s fs = [0, 0, 0];\n%s (%s i = 0; i < 3; i = i + 1) { %s get() { %s i; } fs[i] = get; }\n%s fs[0]();\n%s fs[1]();\n%s fs[2]();\n' % (VAR, FOR, VAR, FUN, RETURN, PRINT, PRINT, PRINT),
+        '%s mk() { %s (%s i = 0; i < 2; i = i + 1) { %s bump() { i = i + 10; %s i; } %s bump; } }\n%s b = mk();\n%s b();\n%s b();\n' % (FUN, FOR, VAR, FUN, RETURN, RETURN, VAR, PRINT, PRINT),
+        '%s out = 0;\n%s f() { %s (%s j = 0; j < 3; out = out + 1) { j = j + 1; %s (j == 2) { %s j; } } }\n%s f();\n%s out;\n' % (VAR, FUN, FOR, VAR, IF, RETURN, PRINT, PRINT),
+    ]
     for e in extra:
         cases.append({'id': 'e%d' % n, 'src': e}); n += 1
     for i in range(1000 if tier == 'quick' else 30000):
